@@ -42,14 +42,19 @@ scal = st.one_of(st.booleans(), st.integers(-2 ** 63, 2 ** 63 - 1), st.integers(
                  st.sampled_from(['1', 'true', 'null', 'yes', '~', '1.0', '', ' ', 'a: b', '- x', '#c', "'", '"']),
                  # strings that contain pieces of syntax: brackets after commas, comment openers, URLs
                  st.sampled_from(['[a, b, ]', '{x,}', 'a, ]', 'http://e.x/p', '/* c */ x', '// not a comment', 'x,}', ',]', 'a /* b', '<!-- c -->',
-                                  '&amp;', '<k>', '# x', 'Zürich', 'naïve café']),
+                                  '&amp;', '<k>', '# x', 'Zürich', 'naïve café', 'a\rb', 'x\r\ny', 'tab\there', 'nl\nnl']),
                  # strings that look like numbers / special scalars in one syntax or another
                  st.sampled_from(['1e5', '12E3', '1.5e3', '7e-2', '0x1F', '0o17', '1_000', '+1', '.5', '1.', 'NaN', '.inf', 'on', 'No',
                                   '2001-01-01', '1:30', '0b11', '1e+5', 'Infinity', '-0', '00', '1,5']))
 
 
+# keys: arbitrary text, plus groups that differ only by case / digits (writers order them differently: json keeps document
+# order, yaml.safe_dump and plistlib sort)
+ckeys = st.one_of(xmlsafe, st.sampled_from(['a', 'A', 'ab', 'Ab', 'AB', 'k1', 'K1', 'b', 'B', 'z']))
+
+
 def cdocs(max_leaves):
-    return st.recursive(scal, lambda ch: st.one_of(st.lists(ch, max_size=3), st.dictionaries(xmlsafe, ch, max_size=3)),
+    return st.recursive(scal, lambda ch: st.one_of(st.lists(ch, max_size=3), st.dictionaries(ckeys, ch, max_size=4)),
                         max_leaves=max_leaves)
 
 
@@ -74,10 +79,31 @@ def retyped(draw, x):
 
 
 @st.composite
+def casekey_docs(draw):
+    """a mapping whose keys differ only by case, written in an order no sorting writer would produce, and a third document
+    whose keys do not all match by name (so that pairings tie)"""
+    grp = draw(st.sampled_from([['a', 'A'], ['ab', 'Ab', 'AB'], ['k1', 'K1'], ['b', 'B']]))
+    vals = st.sampled_from(['ab', 'b', 'b', 'x', 1, 'abc'])
+    ks = list(reversed(sorted(grp)))                  # lower case first: json.dumps keeps this order, the sorting writers do not
+    x = {k: draw(vals) for k in ks}
+    if draw(st.booleans()):
+        x['z'] = draw(vals)
+    others = draw(st.lists(st.sampled_from(['c', 'q', 'zz', 'a2', 'z']), min_size=1, max_size=3, unique=True))
+    c = {k: draw(vals) for k in others}
+    if draw(st.booleans()):
+        c[grp[0]] = draw(vals)
+    if draw(st.booleans()):
+        x, c = {'w': x, 'n': 1}, {'w': c, 'n': 1}
+    return x, c
+
+
+@st.composite
 def cases(draw, max_leaves):
     D = cdocs(max_leaves)
     x = draw(D)
     c = draw(st.one_of(D, gen.mutate(x, D, scal), retyped(x), retyped(x)))
+    if draw(st.integers(0, 4)) == 0:
+        x, c = draw(casekey_docs())
     ds, le = draw(gen.options)
     return {'x': x, 'c': c, 'ds': ds, 'le': le, 'share': draw(st.integers(0, 3)) == 0, 'native': draw(st.booleans()),
             'stdin_enc': draw(st.sampled_from([None, 'latin-1', 'utf-8', 'ascii', 'cp1252']))}
